@@ -493,7 +493,7 @@ func c06Variant(label, options string) *Prop {
 			{Func: "H_C06_isset", Covers: []string{"end", "oi-set", "oi-unset"}},
 		},
 		Prepare: func(r *runner) error {
-			return prepareStatic(r, "c06gen", []string{"main.thrift", "inc.thrift"}, "go", options, "c06/cm")
+			return prepareStatic(r, "c06gen", []string{"main.thrift", "inc.thrift", "inc2.thrift"}, "go", options, "c06/cm")
 		}}
 }
 
@@ -521,14 +521,14 @@ func init() {
 	register(&Prop{
 		ID:        "C09",
 		Functions: []string{"generated Read/Write of two schema versions (harness/c09gen old.thrift, new.thrift)", "default branch of the Read switch (Skip)", "apache thrift TBinaryProtocol.Skip (interpreted)"},
-		Bounds:    "one designed pair (old, new): new adds an optional scalar, a default struct field, a map of lists, an optional double with default, an optional struct at the root; an optional string and a list inside a nested struct (also reached through list elements and map values); a union arm; an enum member. All scalar leaves of the newer value symbolic (full width), presence of every added/optional member symbolic, containers of length 1; chains new->old, old->new, new->old->new->old",
+		Bounds:    "one designed pair (old, new): new adds an optional scalar, a default struct field, a map of lists, an optional double with default, an optional struct at the root; an optional string and a list inside a nested struct (also reached through list elements and map values); a union arm; an enum member. All scalar leaves of the newer value symbolic (full width), presence of every added/optional member symbolic, containers of length 1 (plus unknown lists of 3, 63, 64, 65 and 130 elements at top level, inside an unknown struct and inside an unknown map under keep_unknown_fields: the codec's nesting budget is 64); chains new->old, old->new, new->old->new->old",
 		Assumptions: []string{"the (old,new) pairs dimension is this one designed pair", "keep_unknown_fields round trip is checked in variant 'keep' when the reflective protocol adapter can be executed"},
 		Variants: []*Prop{
 			{Label: "default", Pkg: "zzgen/c09/all", NoOverlay: true, Diff: []string{"D_C09_1"}, Harnesses: hs, Prepare: func(r *runner) error {
 				return prepareStatic(r, "c09gen", []string{"all.thrift", "old.thrift", "new.thrift"}, "go", "", "c09/all")
 			}},
 			{Label: "keep", Pkg: "zzgen/c09/all", NoOverlay: true, Diff: []string{"D_C09_1"},
-				Harnesses: append(append([]Harness{}, hs...), Harness{Func: "H_C09_keep", Covers: []string{"end"}}, Harness{Func: "H_C09_keep_none", Covers: []string{"end"}}),
+				Harnesses: append(append([]Harness{}, hs...), Harness{Func: "H_C09_keep", Covers: []string{"end"}}, Harness{Func: "H_C09_keep_none", Covers: []string{"end"}}, Harness{Func: "H_C09_keep_long", Quick: [][]int64{{3}, {63}, {64}, {65}, {130}}, Covers: []string{"end"}}),
 				Prepare: func(r *runner) error {
 					if err := prepareStatic(r, "c09gen", []string{"all.thrift", "old.thrift", "new.thrift"}, "go", "keep_unknown_fields", "c09/all"); err != nil {
 						return err
